@@ -12,6 +12,7 @@
 //   rand.Int()                         -> verifrt.RandInt()
 //   sync.Mutex / sync.RWMutex (types)  -> verifrt.Mutex / verifrt.RWMutex
 // With :pool after a package directory additionally
+//   http.Dir(root)                     -> verifrt.FS(http.Dir(root)) (Open is a scheduling point)
 //   sync.Pool (type)                   -> verifrt.Pool (deterministic LIFO free list; Get/Put are scheduling points)
 // With -chan (root package) additionally channel operations, select,
 // sync.WaitGroup, sync.Once, signal.Notify and os.Exit (see chan.go).
@@ -423,6 +424,10 @@ func (fc *fileCtx) rewriteExpr(e ast.Expr) ast.Expr {
 				fc.stats["rand.Int"]++
 				x.Fun = fc.rt("RandInt")
 				return x
+			case fc.pools && fc.isPkg(sel.X, "net/http") && sel.Sel.Name == "Dir" && len(x.Args) == 1:
+				// http.Dir(root) -> verifrt.FS(http.Dir(root)): opening a file is a scheduling point
+				fc.stats["http.Dir"]++
+				return &ast.CallExpr{Fun: fc.rt("FS"), Args: []ast.Expr{x}}
 			case fc.isPkg(sel.X, "math/rand") && sel.Sel.Name == "Intn":
 				fc.stats["rand.Intn"]++
 				x.Fun = fc.rt("RandIntn")
